@@ -1,0 +1,7 @@
+//go:build verif
+
+package pkcs7
+
+// VerifBer2Der exposes the unexported BER-to-DER normaliser to the verification harness
+// (build tag verif only; no production code depends on it).
+func VerifBer2Der(ber []byte) ([]byte, error) { return ber2der(ber) }
